@@ -465,8 +465,26 @@ def postdominators(body, exits):
 class Program:
     def __init__(self, units, _normalised=False):
         self._init(units)
+        self.renamed = {}
+        self.inlined = {}
         if _normalised or os.environ.get("SVGDX_SA_NO_RENAME_NORMALISATION"):
             return
+        units = self._normalise_renames(units)
+        # New private helpers (functions that did not exist at review time) are spliced into the reviewed functions that
+        # call them: see sa/inline.py.  Reported in the evidence.
+        try:
+            from props import strops
+            from . import inline
+
+            known = strops.load_table()[1]
+            done = inline.inline_new_helpers(units, known)
+        except Exception:  # noqa: BLE001 - best effort; without it rules that depend on the helper's contents fail closed
+            done = {}
+        if done:
+            self._init(units)
+            self.inlined = done
+
+    def _normalise_renames(self, units):
         # Functions that are recognisably *renamings* of reviewed functions (same module / impl, same callers, the old
         # name gone) are given their reviewed names back, so that rule anchors, tables and known-finding keys - all of
         # which name functions - keep meaning the same code.  The mapping is reported in the evidence.
@@ -494,7 +512,7 @@ class Program:
             ren = {}
         self.renamed = dict(tren, **ren)
         if not ren:
-            return
+            return units
 
         text = _json.dumps(units)
         for new, old in sorted(ren.items(), key=lambda kv: -len(kv[0])):
@@ -505,8 +523,10 @@ class Program:
                 continue
             text = _re.sub(r"::" + _re.escape(nl) + r"(?![A-Za-z0-9_])", "::" + ol, text)
             text = text.replace(f'"name": "{nl}"', f'"name": "{ol}"')
-        self._init(_json.loads(text))
+        units = _json.loads(text)
+        self._init(units)
         self.renamed = dict(tren, **ren)
+        return units
 
     def _init(self, units):
         self.units = units
